@@ -32,6 +32,7 @@ def main (args : List String) : IO UInt32 := do
       | "cfg" :: r => cur := { cur with cfg := r }
       | "aux" :: r => cur := { cur with aux := Driver.floats r }
       | "aux2" :: r => cur := { cur with aux2 := Driver.floats r }
+      | "aux3" :: r => cur := { cur with aux3 := Driver.floats r }
       | ["run"] =>
         if isOpen then
           for l in Driver.dispatch cur do out.putStrLn l
